@@ -3541,23 +3541,28 @@ readline(struct archive_read *a, struct tar *tar, const char **start,
 static char *
 base64_decode(const char *s, size_t len, size_t *out_len)
 {
-	static const unsigned char digits[64] = {
-		'A','B','C','D','E','F','G','H','I','J','K','L','M','N',
-		'O','P','Q','R','S','T','U','V','W','X','Y','Z','a','b',
-		'c','d','e','f','g','h','i','j','k','l','m','n','o','p',
-		'q','r','s','t','u','v','w','x','y','z','0','1','2','3',
-		'4','5','6','7','8','9','+','/' };
-	static unsigned char decode_table[128];
+	/* Value of each base-64 digit ("A-Za-z0-9+/"), 0xff for any other
+	 * character.  A constant table: this used to be filled in on first
+	 * use, which let a second thread see it half initialised. */
+	static const unsigned char decode_table[128] = {
+		0xff,0xff,0xff,0xff,0xff,0xff,0xff,0xff,
+		0xff,0xff,0xff,0xff,0xff,0xff,0xff,0xff,
+		0xff,0xff,0xff,0xff,0xff,0xff,0xff,0xff,
+		0xff,0xff,0xff,0xff,0xff,0xff,0xff,0xff,
+		0xff,0xff,0xff,0xff,0xff,0xff,0xff,0xff,
+		0xff,0xff,0xff,0x3e,0xff,0xff,0xff,0x3f,
+		0x34,0x35,0x36,0x37,0x38,0x39,0x3a,0x3b,
+		0x3c,0x3d,0xff,0xff,0xff,0xff,0xff,0xff,
+		0xff,0x00,0x01,0x02,0x03,0x04,0x05,0x06,
+		0x07,0x08,0x09,0x0a,0x0b,0x0c,0x0d,0x0e,
+		0x0f,0x10,0x11,0x12,0x13,0x14,0x15,0x16,
+		0x17,0x18,0x19,0xff,0xff,0xff,0xff,0xff,
+		0xff,0x1a,0x1b,0x1c,0x1d,0x1e,0x1f,0x20,
+		0x21,0x22,0x23,0x24,0x25,0x26,0x27,0x28,
+		0x29,0x2a,0x2b,0x2c,0x2d,0x2e,0x2f,0x30,
+		0x31,0x32,0x33,0xff,0xff,0xff,0xff,0xff };
 	char *out, *d;
 	const unsigned char *src = (const unsigned char *)s;
-
-	/* If the decode table is not yet initialized, prepare it. */
-	if (decode_table[digits[1]] != 1) {
-		unsigned i;
-		memset(decode_table, 0xff, sizeof(decode_table));
-		for (i = 0; i < sizeof(digits); i++)
-			decode_table[digits[i]] = i;
-	}
 
 	/* Allocate enough space to hold the entire output. */
 	/* Note that we may not use all of this... */
